@@ -1,0 +1,8 @@
+//! Read-only accessors for the verification harness (`--cfg qcow2_rs_verif`).
+use super::RefTable;
+
+impl RefTable {
+    pub fn verif_dirty_blocks(&self) -> Vec<u32> {
+        self.dirty_blocks.borrow().iter().copied().collect()
+    }
+}
